@@ -89,13 +89,17 @@ where
         let mut file = SimFile::new(storage_seed);
         let w = bincode::serialize_into(&mut file, &v).map_err(|e| e.to_string());
         let json = serde_json::to_string(&v).map_err(|e| e.to_string());
+        // the same self-describing data as a document tree (`serde_json::Value`): what a model
+        // embedded in a larger JSON document goes through.  Object keys come back in sorted
+        // order, not in the order they were written - JSON objects are unordered.
+        let json_tree = serde_json::to_value(&v).map_err(|e| e.to_string());
         // the value as PART of something larger (a pipeline struct, a checkpoint with a trailer):
         // in a positional format a writer and a reader that disagree about the value's extent
         // only show once something follows it
         let embedded = bincode::serialize(&(&v, EMBED_SENTINEL, &v, EMBED_SENTINEL ^ 1)).map_err(|e| e.to_string());
-        (v, fa, file, w, json, embedded)
+        (v, fa, file, w, json, embedded, json_tree)
     });
-    let (orig, fa, mut file, w, json, embedded) = match a {
+    let (orig, fa, mut file, w, json, embedded, json_tree) = match a {
         Ok(t) => t,
         Err(panic) => {
             out.scenario_panic = Some(format!("process A panicked: {panic}"));
@@ -194,6 +198,19 @@ where
                         Err(e) => Err(format!("json deserialize: {e}")),
                     },
                     Err(e) => Err(format!("json serialize: {e}")),
+                };
+                // through the document tree, only where the text form worked
+                let js = match (js, &json_tree) {
+                    (Ok(fj), Ok(tree)) => match serde_json::from_value::<T>(tree.clone()) {
+                        Ok(tv) => match catch_unwind(AssertUnwindSafe(|| fp_of(&tv, &p, fp))) {
+                            Ok(ft) if ft == fj => Ok(fj),
+                            Ok(ft) => Ok(if fj == fb_orig { ft } else { fj }),
+                            Err(_) => Err("value restored from a JSON document tree panicked when used".to_string()),
+                        },
+                        Err(e) => Err(format!("json document tree (keys in sorted order) deserialize: {e}")),
+                    },
+                    (Ok(_), Err(e)) => Err(format!("json document tree serialize: {e}")),
+                    (Err(e), _) => Err(e),
                 };
                 (fb_orig, Ok((fb_rest, gen2)), eqr, Some(js), stats, probes)
             }
